@@ -3,8 +3,9 @@
 Any VIOLATION is a false alarm to be triaged. Only run when /repo is clean and idle."""
 import glob, json, os, subprocess, sys
 from concurrent.futures import ThreadPoolExecutor
-d = sys.argv[1]
-out = sys.argv[2] if len(sys.argv) > 2 else os.path.join(d, 'BENIGN_MATRIX.json')
+args = [a for a in sys.argv[1:] if not a.startswith('--')]
+d = args[0]
+out = args[1] if len(args) > 1 else os.path.join(d, 'BENIGN_MATRIX.json')
 PIDS = [c['property_id'] for c in json.load(open('/verif/MANIFEST.json'))['checks']]
 st = subprocess.run(['git', '-C', '/repo', 'status', '--porcelain'], capture_output=True, text=True).stdout.strip()
 if st:
